@@ -668,6 +668,8 @@ func summarize(prop, tier string, seed int, pc *PropCfg, reps []*FuncReport, x *
 		"implicit runtime panics (nil dereference, index, integer division by zero) are assumed absent except in functions whose contract says `panics never`",
 		"termination is not verified (partial correctness)",
 		"atomic operations are linearizable; unless a contract is marked concurrent the function is verified for one thread",
+		"loop bounds taken from the loop's syntax, not proved by the solver: a range loop's index lies within the ranged length; a plain counting loop (constant start, +1 per iteration, guard i < n in the loop head) never has its index below the start",
+		"a scalar local captured only by function literals of the same function that are called or deferred on the spot is not reachable by callees (kept beside the heap model)",
 		"the SSA construction of golang.org/x/tools v0.29.0 and the solvers z3 4.8.12 / z3 5.1.0 / cvc5 1.0 are trusted")
 	for _, a := range asL {
 		assumptions = append(assumptions, "assumed contract (not verified here): "+a)
